@@ -3,7 +3,7 @@ import vpl, re
 from concurrent.futures import ThreadPoolExecutor
 
 LEVEL = "proof"
-LIBS = ["SigmaArith.vo", "KeyRingLemmas.vo", "SigmaLemmas.vo"]
+LIBS = ["SigmaArith.vo", "KeyRingLemmas.vo", "SigmaLemmas.vo", "SigmaFsLemmas.vo"]
 
 
 def correspond_chunks(res, pid, out, drv, tier, seed, k):
@@ -26,7 +26,7 @@ def correspond_chunks(res, pid, out, drv, tier, seed, k):
     return mism
 
 def proto_groups(tier):
-    g = ["vtmf", "edcf", "skc", "rabin", "hoogh:0", "groth:0", "groth:1"]
+    g = ["vtmf", "edcf", "skc", "rabin", "hoogh:0", "groth:0", "groth:1"] + ["direct:%d" % i for i in range(6)]
     g += ["cutchoose:%d" % i for i in range(4 if tier == "quick" else 6)]
     if tier != "quick":
         g += ["groth:2", "hoogh:1", "hoogh:2"]
@@ -40,7 +40,10 @@ def run(res, tier, seed, replay):
                        "other verifiable operation (cut-and-choose stack equality in both encodings, Groth shuffle and SKC in interactive / public-"
                        "coin / non-interactive form, rotation argument in three forms, Pedersen commitments, two-party coin flip, Rabin key "
                        "validity + signatures, toolbox card proofs): honest prover -> unchanged transcript -> verifier, sweeping stack sizes, "
-                       "permutations/rotations, kappa, l_e at the admissibility boundary; PROPFAIL on any rejection")
+                       "permutations/rotations, kappa, l_e at the admissibility boundary; PROPFAIL on any rejection; group `direct`: prover and verifier objects built through different construction paths (generated / "
+                       "p,q,g,h-constructed / stream-constructed / public-coin generators; GrothVSSHE with the commitment key in an independently generated "
+                       "group; generated canonical-g, random-g and GroupQR VTMF instances with stream-constructed peers).  (3) vm_compute obligation: prover and "
+                       "verifier of every non-interactive argument hash the same argument list (table regenerated from the sources)")
     res.assumptions += ["hash = arbitrary function H with 0 <= H < 2^hbits (Section variable); coins arbitrary integers reduced as tmcg_mpz_srandomm does",
                         "wf_params: 1 < p odd, 0 < q, g^q = 1 mod p, |q| <= TMCG_MAX_FPOWM_T; statements' bases and the common key are group elements "
                         "(a^q = 1); primality of p and q is not needed for completeness",
